@@ -89,6 +89,9 @@ def render(d):
         cells[FORMULA_AT] = f'=SUM({ref(x, unbounded="col")})'
     elif f == 'urow':
         cells[FORMULA_AT] = f'=SUM({ref(x, unbounded="row")})'
+    elif f == 'mix':
+        cells[FORMULA_AT] = (f'=SUM({qualify(a1(x), x[0], "plain")})+'
+                             f'{qualify(a1(y), y[0], "plain")}')
     elif f == 'cse':
         h, w = x[4] - x[2] + 1, x[3] - x[1] + 1
         tgt = f'E5:{COLS[4 + w - 1]}{5 + h - 1}'
